@@ -200,6 +200,134 @@ func c17verArg(call ssa.CallInstruction) ssa.Value {
 	return nil
 }
 
+// c17sameVal: a and b denote the same value: the same SSA value, or two reads
+// of one local memory cell (a variable that a closure captures is kept in
+// memory) that is not written any more once either of them was read.
+func c17sameVal(f *ssa.Function, a, b ssa.Value) bool {
+	a, b = c17strip(a), c17strip(b)
+	if a == b {
+		return a != nil
+	}
+	la, ok1 := a.(*ssa.UnOp)
+	lb, ok2 := b.(*ssa.UnOp)
+	if !ok1 || !ok2 || la.Op != token.MUL || lb.Op != token.MUL {
+		return false
+	}
+	cell, ok := la.X.(*ssa.Alloc)
+	if !ok || lb.X != ssa.Value(cell) || cell.Referrers() == nil {
+		return false
+	}
+	var stores []ssa.Instruction
+	for _, r := range *cell.Referrers() {
+		switch x := r.(type) {
+		case *ssa.Store:
+			if x.Addr == ssa.Value(cell) {
+				stores = append(stores, x)
+			}
+		case *ssa.MakeClosure:
+			// a closure that captured the cell must only read it
+			fn, _ := x.Fn.(*ssa.Function)
+			for i, bnd := range x.Bindings {
+				if bnd != ssa.Value(cell) || fn == nil || i >= len(fn.FreeVars) {
+					continue
+				}
+				if refs := fn.FreeVars[i].Referrers(); refs != nil {
+					for _, rr := range *refs {
+						if st, ok := rr.(*ssa.Store); ok && st.Addr == ssa.Value(fn.FreeVars[i]) {
+							return false
+						}
+						if _, ok := rr.(*ssa.MakeClosure); ok {
+							return false
+						}
+					}
+				}
+			}
+		case *ssa.UnOp:
+		default:
+			return false // address taken some other way
+		}
+	}
+	for _, l := range []*ssa.UnOp{la, lb} {
+		if eng.Reach(eng.Query{Fn: f, StartAfter: l, Target: eng.IsTarget(stores)}) != nil {
+			return false
+		}
+	}
+	return true
+}
+
+// c17stableCell: ld reads a local cell that is not written after this read,
+// neither in f nor by a closure that captured it.
+func c17stableCell(f *ssa.Function, ld *ssa.UnOp) bool {
+	cell, ok := ld.X.(*ssa.Alloc)
+	if !ok || cell.Referrers() == nil {
+		return false
+	}
+	// a second, distinct read of the same cell lets c17sameVal do the work
+	for _, r := range *cell.Referrers() {
+		if l2, ok := r.(*ssa.UnOp); ok && l2 != ld && l2.Op == token.MUL {
+			return c17sameVal(f, ld, l2) || c17stableAlone(f, ld, cell)
+		}
+	}
+	return c17stableAlone(f, ld, cell)
+}
+
+func c17stableAlone(f *ssa.Function, ld *ssa.UnOp, cell *ssa.Alloc) bool {
+	var stores []ssa.Instruction
+	for _, r := range *cell.Referrers() {
+		switch x := r.(type) {
+		case *ssa.Store:
+			if x.Addr == ssa.Value(cell) {
+				stores = append(stores, x)
+			}
+		case *ssa.MakeClosure:
+			fn, _ := x.Fn.(*ssa.Function)
+			for i, bnd := range x.Bindings {
+				if bnd != ssa.Value(cell) || fn == nil || i >= len(fn.FreeVars) {
+					continue
+				}
+				if refs := fn.FreeVars[i].Referrers(); refs != nil {
+					for _, rr := range *refs {
+						if st, ok := rr.(*ssa.Store); ok && st.Addr == ssa.Value(fn.FreeVars[i]) {
+							return false
+						}
+						if _, ok := rr.(*ssa.MakeClosure); ok {
+							return false
+						}
+					}
+				}
+			}
+		case *ssa.UnOp:
+		default:
+			return false
+		}
+	}
+	return eng.Reach(eng.Query{Fn: f, StartAfter: ld, Target: eng.IsTarget(stores)}) == nil
+}
+
+// c17fwdResult: if v is result #i of a call of a closure literal, the values
+// that closure returns as result #i (a forwarding closure such as
+// func(n int) ([]byte, error) { return p.GetKey(ctx, ver, n) }); otherwise v.
+func c17fwdResult(v ssa.Value) []ssa.Value {
+	if ex, ok := c17strip(v).(*ssa.Extract); ok {
+		if call, ok := ex.Tuple.(*ssa.Call); ok {
+			if mc, ok := call.Call.Value.(*ssa.MakeClosure); ok {
+				if fn, ok := mc.Fn.(*ssa.Function); ok {
+					var out []ssa.Value
+					for _, r := range eng.Returns(fn) {
+						if ex.Index < len(r.Results) && !eng.AllNilThroughPhi(r.Results[ex.Index]) {
+							out = append(out, r.Results[ex.Index])
+						}
+					}
+					if len(out) > 0 {
+						return out
+					}
+				}
+			}
+		}
+	}
+	return []ssa.Value{v}
+}
+
 func c17fieldStores(fn *ssa.Function, fv *types.Var) []*ssa.Store {
 	var out []*ssa.Store
 	for _, b := range fn.Blocks {
@@ -342,18 +470,54 @@ func c17window(c *eng.Ctx, F *c17fields, w c17win) (f *ssa.Function, ver ssa.Val
 		return nil, nil
 	}
 	calls := eng.Calls(f, w.sinkPat)
-	if !c.Floor(f, "versioned key fetches", len(calls), w.floor) {
+	// a fetch made through a forwarding closure literal whose version is a
+	// variable it captured from f: the call of the closure in f is the fetch
+	// site, its version the captured variable (a memory cell of f)
+	var viaClosure []ssa.Instruction
+	var viaCell []ssa.Value
+	for _, in := range eng.Instrs(f, func(in ssa.Instruction) bool { _, ok := in.(*ssa.Call); return ok }) {
+		call := in.(*ssa.Call)
+		mc, ok := call.Call.Value.(*ssa.MakeClosure)
+		if !ok {
+			continue
+		}
+		fn, _ := mc.Fn.(*ssa.Function)
+		if fn == nil {
+			continue
+		}
+		for _, k := range eng.Calls(fn, w.sinkPat) {
+			if ld, ok := c17strip(c17verArg(k)).(*ssa.UnOp); ok && ld.Op == token.MUL {
+				for i, fv := range fn.FreeVars {
+					if ld.X == ssa.Value(fv) && i < len(mc.Bindings) {
+						viaClosure = append(viaClosure, call)
+						viaCell = append(viaCell, mc.Bindings[i])
+					}
+				}
+			}
+		}
+	}
+	if len(calls) == 0 || !c.Floor(f, "versioned key fetches", len(calls)+len(viaClosure), w.floor) {
+		if len(calls) == 0 {
+			c.Floor(f, "versioned key fetches", 0, w.floor)
+		}
 		return f, nil
 	}
-	sinks := instrsOf(calls)
+	sinks := append(instrsOf(calls), viaClosure...)
 	// every fetch of one operation uses one version value
 	c.Clause("R7", "C17.1")
 	ver = c17verArg(calls[0])
 	same := ver != nil
 	for _, cl := range calls {
-		if c17verArg(cl) != ver {
+		if !c17sameVal(f, c17verArg(cl), ver) {
 			same = false
 			c.Violation(f, "agree{one version for every key fetch}", cl.Pos(), "this fetch uses "+eng.Expr(c17verArg(cl))+" while the first uses "+eng.Expr(ver)+": the window checks cover one of them only", nil)
+		}
+	}
+	for i, cell := range viaCell {
+		ld, ok := c17strip(ver).(*ssa.UnOp)
+		if !ok || ld.Op != token.MUL || ld.X != cell || !c17stableCell(f, ld) {
+			same = false
+			c.Violation(f, "agree{one version for every key fetch}", viaClosure[i].Pos(), "the fetch made through the closure uses the captured variable "+eng.Expr(cell)+", which is not (provably) the value "+eng.Expr(ver)+" the window checks cover", nil)
 		}
 	}
 	if !same {
@@ -386,7 +550,25 @@ func c17window(c *eng.Ctx, F *c17fields, w c17win) (f *ssa.Function, ver ssa.Val
 		cmpVals = append(cmpVals, raw[0])
 		zero = c17rel(f, true, c17is(raw[0]), c17const("0"), true)
 	}
-	x := c17is(cmpVals...)
+	exact := c17is(cmpVals...)
+	x := c17match(func(v ssa.Value) bool {
+		if exact(v) {
+			return true
+		}
+		// another read of the memory cell the version lives in, taken when the cell is final
+		ld, ok := c17strip(v).(*ssa.UnOp)
+		if !ok || ld.Op != token.MUL {
+			return false
+		}
+		for _, cv := range cmpVals {
+			if l2, ok := c17strip(cv).(*ssa.UnOp); ok && l2.Op == token.MUL && l2.X == ld.X {
+				if _, isCell := ld.X.(*ssa.Alloc); isCell && c17sameVal(f, ld, l2) {
+					return true
+				}
+			}
+		}
+		return false
+	})
 	what := "key material fetch (" + w.role + ")"
 	c.Clause("R2", "C17.1")
 	if !w.noUpper {
@@ -560,21 +742,43 @@ func c17binding(c *eng.Ctx, F *c17fields) {
 		}
 		ver := c17verArg(fetch[0])
 		in := f.Params[h.input]
+		// the parsing may have been extracted into a helper of the package that
+		// receives the input and holds the Atoi: follow it (pf), with its own parameter as the input
+		pf, pin := f, in
+		var hcall ssa.CallInstruction
+		if c17one(f, `^strconv\.Atoi$`) == nil {
+			for _, k := range eng.Calls(f, `^keysutil\.`) {
+				fn := k.Common().StaticCallee()
+				if fn == nil || len(fn.Blocks) == 0 || c17one(fn, `^strconv\.Atoi$`) == nil {
+					continue
+				}
+				for i, a := range k.Common().Args {
+					if c17strip(a) == ssa.Value(in) && i < len(fn.Params) {
+						pf, pin, hcall = fn, fn.Params[i], k
+					}
+				}
+			}
+		}
 		tpl0 := `^op:keysutil\.\(\*Policy\)\.getTemplateParts\(\)#0\[0\]$`
 		tpl1 := `^op:keysutil\.\(\*Policy\)\.getTemplateParts\(\)#0\[1\]$`
-		inP := `^param:` + eng.VarName(in) + `$`
-		hp, tp, sp, at := c17one(f, `^strings\.HasPrefix$`), c17one(f, `^strings\.TrimPrefix$`), c17one(f, `^strings\.SplitN$`), c17one(f, `^strconv\.Atoi$`)
+		inP := `^param:` + eng.VarName(pin) + `$`
+		hp, tp, sp, at := c17one(pf, `^strings\.HasPrefix$`), c17one(pf, `^strings\.TrimPrefix$`), c17one(pf, `^strings\.SplitN$`), c17one(pf, `^strconv\.Atoi$`)
 		c.Clause("R5", "C17.1")
-		verAllowed := []string{`^call:strconv\.Atoi#0$`}
+		if at == nil {
+			c.Undecided(f, "prov{version parsed from the template split}", f.Pos(), "no strconv.Atoi call in this function or in a helper of the package that is given the input: parsing moved? the rule cannot be evaluated")
+			continue
+		}
+		parsed := `^call:strconv\.Atoi#0$`
+		payload := `^op:strings\.SplitN\(\)\[1\]$`
+		if hcall != nil {
+			hn := quoteRe(eng.CalleeName(hcall.Common()))
+			parsed, payload = `^call:`+hn+`#0$`, `^call:`+hn+`#1$`
+		}
+		verAllowed := []string{parsed}
 		if h.compat {
 			verAllowed = append(verAllowed, `^const:1$`) // version 0 of the first implementation
 		}
-		if at == nil {
-			c.Violation(f, "prov{version parsed from the template split}", f.Pos(), "no strconv.Atoi call: the version is no longer parsed from the input", nil)
-			continue
-		}
-		c17provAll(c, f, "version parsed from the template split", at, []c17pv{
-			{"version used", ver, verAllowed},
+		pv := []c17pv{
 			{"Atoi input", c17arg(at, 0), []string{`^op:strings\.SplitN\(\)\[0\]$`}},
 			{"SplitN input", c17arg(sp, 0), []string{`^call:strings\.TrimPrefix$`}},
 			{"SplitN separator", c17arg(sp, 1), []string{tpl1}},
@@ -583,12 +787,33 @@ func c17binding(c *eng.Ctx, F *c17fields) {
 			{"TrimPrefix prefix", c17arg(tp, 1), []string{tpl0}},
 			{"HasPrefix input", c17arg(hp, 0), []string{inP}},
 			{"HasPrefix prefix", c17arg(hp, 1), []string{tpl0}},
-		})
+		}
+		if hcall == nil {
+			c17provAll(c, f, "version parsed from the template split", at, append([]c17pv{{"version used", ver, verAllowed}}, pv...))
+		} else {
+			// what the helper hands back is what it parsed
+			okRets := eng.SuccessReturns(pf, pf.Signature.Results().Len()-1)
+			for _, r := range okRets {
+				ret := r.(*ssa.Return)
+				if len(ret.Results) >= 3 {
+					pv = append(pv, c17pv{"version returned", ret.Results[0], []string{`^call:strconv\.Atoi#0$`}})
+					pv = append(pv, c17pv{"payload returned", ret.Results[1], []string{`^op:strings\.SplitN\(\)\[1\]$`}})
+				}
+			}
+			c17provAll(c, pf, "version parsed from the template split", at, pv)
+			c17provAll(c, f, "version used = version parsed by "+eng.CalleeName(hcall.Common()), hcall, []c17pv{{"version used", ver, verAllowed}})
+			c.Clause("R2", "C17.1")
+			if c.Floor(pf, "success returns of the parsing helper", len(okRets), 1) {
+				c.Cut(pf, "version handed back", okRets, eng.G(pf, `^strings\.HasPrefix\(\)$`, true), nil)
+				c.Cut(pf, "version handed back", okRets, eng.GCallOK(pf, `^strconv\.Atoi$`), nil)
+			}
+			c.Clause("R5", "C17.1")
+		}
 		// every base64 decoding of a piece of the input decodes the part after the version
 		var pay []c17pv
 		for _, d := range eng.Calls(f, `^\(\*encoding/base64\.Encoding\)\.DecodeString$`) {
-			if ok, _, _ := eng.OriginsMatch(c17arg(d, 1), `^op:strings\.SplitN\(\)`, `^param:`, `^call:strings\.`); ok {
-				pay = append(pay, c17pv{"payload decoded", c17arg(d, 1), []string{`^op:strings\.SplitN\(\)\[1\]$`}})
+			if ok, _, _ := eng.OriginsMatch(c17arg(d, 1), `^op:strings\.SplitN\(\)`, `^param:`, `^call:strings\.`, `^call:keysutil\.`); ok {
+				pay = append(pay, c17pv{"payload decoded", c17arg(d, 1), []string{payload}})
 			}
 		}
 		if c.Floor(f, "decodings of the payload", len(pay), 1) {
@@ -596,12 +821,16 @@ func c17binding(c *eng.Ctx, F *c17fields) {
 		}
 		c.Clause("R2", "C17.1")
 		sinks := instrsOf(fetch)
-		c.Cut(f, "key material fetch", sinks, eng.G(f, `^strings\.HasPrefix\(\)$`, true), nil)
-		c.Cut(f, "key material fetch", sinks, eng.GCallOK(f, `^strconv\.Atoi$`), nil)
+		if hcall == nil {
+			c.Cut(f, "key material fetch", sinks, eng.G(f, `^strings\.HasPrefix\(\)$`, true), nil)
+			c.Cut(f, "key material fetch", sinks, eng.GCallOK(f, `^strconv\.Atoi$`), nil)
+		} else {
+			c.Cut(f, "key material fetch", sinks, eng.GCallOK(f, `^`+quoteRe(eng.CalleeName(hcall.Common()))+`$`), nil)
+		}
 		// the convergent-version lookup is keyed by the same version
 		c.Clause("R7", "C17.1")
 		for _, cv := range eng.Calls(f, `^keysutil\.\(\*Policy\)\.convergentVersion$`) {
-			if c17verArg(cv) == ver {
+			if c17sameVal(f, c17verArg(cv), ver) {
 				c.OK(f, "agree{convergentVersion(ver) uses the fetched version}", cv.Pos(), eng.Expr(ver))
 			} else {
 				c.Violation(f, "agree{convergentVersion(ver) uses the fetched version}", cv.Pos(), "convergentVersion is asked about "+eng.Expr(c17verArg(cv))+" but the key of "+eng.Expr(ver)+" is used", nil)
@@ -632,7 +861,7 @@ func c17binding(c *eng.Ctx, F *c17fields) {
 			for _, cl := range eng.Calls(f, p) {
 				n++
 				site := "agree{" + strings.TrimPrefix(eng.CalleeName(cl.Common()), "keysutil.(*Policy).") + "(ver) names the version whose key is used}"
-				if c17verArg(cl) == ver {
+				if c17sameVal(f, c17verArg(cl), ver) {
 					c.OK(f, site, cl.Pos(), eng.Expr(ver))
 				} else {
 					c.Violation(f, site, cl.Pos(), "called with "+eng.Expr(c17verArg(cl))+" while the key of "+eng.Expr(ver)+" is fetched: the output would be labelled with, or derived for, another version", nil)
@@ -975,9 +1204,9 @@ func c17aead(c *eng.Ctx, F *c17fields) {
 		args := raw.Common().Args
 		keyArg, dataArg, optsArg := args[len(args)-3], args[len(args)-2], args[len(args)-1]
 		c.Clause("R5", "C17.2")
-		pv := []c17pv{
-			{"key", keyArg, []string{`^call:keysutil\.\(\*Policy\)\.GetKey#0$`}},
-			{"data", dataArg, []string{c17b64dec}},
+		pv := []c17pv{{"data", dataArg, []string{c17b64dec}}}
+		for _, kv := range c17fwdResult(keyArg) {
+			pv = append(pv, c17pv{"key", kv, []string{`^call:keysutil\.\(\*Policy\)\.GetKey#0$`}})
 		}
 		nAD := 0
 		if ld, ok := optsArg.(*ssa.UnOp); ok && ld.Op == token.MUL {
@@ -1026,6 +1255,26 @@ func c17aead(c *eng.Ctx, F *c17fields) {
 		var szRoot ssa.Value
 		if gk := c17one(f, `^keysutil\.\(\*Policy\)\.GetKey$`); gk != nil {
 			szRoot = c17arg(gk, 3)
+		} else {
+			// GetKey called through a forwarding closure whose parameter is the size
+			for _, in := range eng.Instrs(f, func(in ssa.Instruction) bool { _, ok := in.(*ssa.Call); return ok }) {
+				call := in.(*ssa.Call)
+				mc, ok := call.Call.Value.(*ssa.MakeClosure)
+				if !ok {
+					continue
+				}
+				fn, _ := mc.Fn.(*ssa.Function)
+				if fn == nil {
+					continue
+				}
+				if gk := c17one(fn, `^keysutil\.\(\*Policy\)\.GetKey$`); gk != nil {
+					for i, p := range fn.Params {
+						if c17strip(c17arg(gk, 3)) == ssa.Value(p) && i < len(call.Call.Args) {
+							szRoot = call.Call.Args[i]
+						}
+					}
+				}
+			}
 		}
 		e16 := c17constPhiEdges(szRoot, "16")
 		c.CutEdges(f, "key size 16", e16, c17guard("Type == AES128_GCM96", c17rel(f, true, c17loadOf(F.typ), c17const(aes128), true)))
